@@ -136,6 +136,16 @@ func (x *exec) call(fr *frame, s *State, cc *ssa.CallCommon, instr ssa.Value, po
 		x.note("A-CLOSURE-FRAME: a stored change closure is an uninterpreted transformer of the client state and does not touch the history's own objects")
 		return &Val{}
 	}
+	if u, ok := cc.Value.(*ssa.UnOp); ok && u.Op == token.MUL {
+		// call through a package-level function variable (`var F = func…`, set once at start-up): an assumed
+		// contract written for `pkg.F` speaks for whatever function the variable holds
+		if g, ok := u.X.(*ssa.Global); ok && g.Pkg != nil {
+			key := g.Pkg.Pkg.Path() + "." + g.Name()
+			if con := x.p.Contracts.ByKey[key]; con != nil && con.Assumed && x.assumedInScope(con) {
+				return x.applyContract(fr, s, con, sig, args, pos, key)
+			}
+		}
+	}
 	return x.unknownCall(fr, s, "dynamic call "+cc.Value.Name(), args, resT, pos)
 }
 
